@@ -6,7 +6,6 @@ package simrt
 
 import (
 	"fmt"
-	"runtime"
 	"sort"
 	"strconv"
 	"sync"
@@ -75,21 +74,6 @@ func Reset(on bool, notify func()) *Sched {
 }
 
 func Enabled() bool { return enabled.Load() }
-
-func goid() uint64 {
-	var buf [40]byte
-	n := runtime.Stack(buf[:], false)
-	// "goroutine 123 ["
-	b := buf[10:n]
-	var id uint64
-	for _, c := range b {
-		if c < '0' || c > '9' {
-			break
-		}
-		id = id*10 + uint64(c-'0')
-	}
-	return id
-}
 
 // RegisterDriver registers the calling goroutine as the driver: it may call
 // instrumented code (NewServer, Stats, …) but never parks.
